@@ -30,3 +30,38 @@ Section Learn.
       (s, cb_end c s (ks k 4 3)).
   End WithCallback.
 End Learn.
+
+(* ---------- observers inside the CONCRETE collection models (the ones validated against the real
+   collect_rollout by the C04 / C05 checks): the step callback state is threaded through the scan with its own key
+   (index 8 of the 9-way split) and never feeds back into the interaction ---------- *)
+From Lerax Require Import Replay OffPolicy.
+From Coq Require Import QArith.
+
+Section ConcreteCollect.
+  Context {S PS O CS : Type}.
+  Variable gamma : Q.
+  Variable E : env S Q O.
+  Variable P : acpol PS Q O.
+  (* an arbitrary step observer: sees the row (incl. environment reward and done flag) and its own key *)
+  Variable cb_step : CS -> @orow PS O -> kpath -> CS.
+
+  Fixpoint scan_steps_cb (st : S * PS) (c : CS) (keys : list kpath) : (S * PS) * CS * list (@orow PS O) :=
+    match keys with
+    | [] => (st, c, [])
+    | k :: tl => let '(st1, row) := op_step gamma E P st k in
+                 let c1 := cb_step c row (ks k 9 8) in
+                 let '(st2, c2, rows) := scan_steps_cb st1 c1 tl in (st2, c2, row :: rows)
+    end.
+
+  Variable cb_off : CS -> trow O Q PS -> kpath -> CS.
+  Fixpoint off_scan_cb (st : (S * PS) * @obuf PS O) (c : CS) (keys : list kpath) : ((S * PS) * @obuf PS O) * CS :=
+    match keys with
+    | [] => (st, c)
+    | k :: tl => let st1 := off_step E P st k in
+                 (* the observer is shown the slot just written *)
+                 let c1 := cb_off c (row_at {| t_obs := e_obs E (fst (fst st)) k; t_next := e_obs E (fst (fst st)) k; t_act := 0%Q; t_rew := 0%Q;
+                                              t_done := false; t_timeout := false; t_ps := snd (fst st); t_nps := snd (fst st) |}
+                                           (snd st1) (b_pos (snd st) mod b_size (snd st))) (ks k 9 8) in
+                 off_scan_cb st1 c1 tl
+    end.
+End ConcreteCollect.
